@@ -66,6 +66,7 @@ type (
 
 		logger    log4g.Logger
 		lock      sync.Mutex
+		saveLock  sync.Mutex // serializes savePipes(): the last one to write has the latest list
 		closedCh  chan struct{}
 		closedCtx context.Context
 		psr       *persister
@@ -177,6 +178,8 @@ func (s *Service) CreatePipe(p Pipe) (PipeDesc, error) {
 	if ok {
 		return PipeDesc{}, errors2.Errorf("the pipe for name %s, already exists", p.Name)
 	}
+	// the definition is acknowledged: persist it now, not only at a clean shutdown
+	s.savePipes()
 	return res, nil
 }
 
@@ -207,6 +210,9 @@ func (s *Service) DeletePipe(name string) error {
 		s.logger.Warn("Pipe with name ", name, " is not found.")
 	}
 	s.lock.Unlock()
+	if err == nil {
+		s.savePipes()
+	}
 	return err
 }
 
@@ -256,13 +262,16 @@ func (s *Service) ensurePipe(p Pipe, changeOk bool) (PipeDesc, error) {
 }
 
 func (s *Service) savePipes() {
-	s.logger.Info("Saving information about ", len(s.ppipes), " pipes")
+	s.saveLock.Lock()
+	defer s.saveLock.Unlock()
+
 	s.lock.Lock()
 	ss := make([]Pipe, 0, len(s.ppipes))
 	for _, pp := range s.ppipes {
 		ss = append(ss, pp.getConfig())
 	}
 	s.lock.Unlock()
+	s.logger.Info("Saving information about ", len(ss), " pipes")
 	if err := s.psr.savePipes(ss); err != nil {
 		s.logger.Error("Could not save infromation about ", len(ss), " streams, err=", err)
 	}
